@@ -9,6 +9,10 @@ ARGS = {"trace_res": ["w1_mm", "w2_mm", "l_mm", "t_mm", "rho", "tcr", "temp"], "
 DTYPES = [np.float64, np.float32, np.int64, np.int32, np.int16, np.uint8, np.uint16, np.uint32, np.uint64, np.int8]
 
 
+import sysloss.utils as _U0
+_RHO0, _TCR0 = float(_U0.RHO), float(_U0.TCR)        # the documented defaults, read once when this module is imported (before any call)
+
+
 def formula(fn, v):
     f = {k: np.asarray(x, dtype=np.float64) for k, x in v.items()}
     if fn == "trace_res":
@@ -67,6 +71,20 @@ def case(args):
     for k, x in v.items():
         if isinstance(x, np.ndarray) and not np.array_equal(x, before[k]):
             fail("argforms.mutated", "%s modified its array argument %s: %r -> %r" % (fn, k, before[k].tolist(), x.tolist()))
+    # a call that names another material must not colour a later call that relies on the defaults (copper)
+    try:
+        other = {k: (float(np.asarray(x).ravel()[0]) if k not in ("rho", "tcr") else x) for k, x in v.items()}
+        other["rho"], other["tcr"] = 2.82e-8, 0.0039
+        getattr(U, fn)(**{k: x for k, x in other.items()})
+        dflt = {k: x for k, x in other.items() if k not in ("rho", "tcr")}
+        got_d = float(getattr(U, fn)(**dflt))
+        want_d = float(formula(fn, dict(dflt, rho=_RHO0, tcr=_TCR0)))
+        if not abs(got_d - want_d) <= 1e-9 * abs(want_d):
+            fail("argforms.defaults", "%s with default rho/tcr after a call with another material: %r, copper gives %r" % (fn, got_d, want_d))
+        g2 = float(U.trace_res(w1_mm=2.0, w2_mm=2.0, l_mm=30.0, t_mm=0.035, temp=45.0)); g3 = float(U.plane_res(w=2.0, l=30.0, t_mm=0.035, temp=45.0))
+        if not abs(g2 - g3) <= 1e-12 * abs(g3): fail("argforms.defaults", "trace_res(W, W, L) %r != plane_res(W, L) %r with default material" % (g2, g3))
+    except Exception as e:
+        fail("argforms.exception", "default-material sequence raised %s: %s" % (type(e).__name__, e))
     if idx < 3: out["sample"] = {"system": "%s(%s)" % (fn, ", ".join("%s=%s" % kv for kv in forms.items())), "verdict": "%d failures" % len(out["failures"])}
     return out
 
